@@ -19,6 +19,7 @@ impl EventLog {
         if let Some(parent) = path.parent() {
             fs::create_dir_all(parent)?;
         }
+        repair_torn_tail(&path)?;
         let file = OpenOptions::new().create(true).append(true).open(&path)?;
         Ok(Self {
             path,
@@ -128,6 +129,56 @@ fn verif_stream_kind(event: &Event) -> &'static str {
         StreamKind::Continuity => "continuity",
         StreamKind::Artifact => "artifact",
     }
+}
+
+/// A writer that died between the body and the newline of a frame leaves a last line without
+/// terminator; the next append would be glued onto it and the log would stop replaying. If the
+/// unterminated line is a whole frame it is terminated, otherwise (a partial write) it is dropped:
+/// it was never acknowledged.
+fn repair_torn_tail(path: &Path) -> io::Result<()> {
+    let mut file = match OpenOptions::new().read(true).write(true).open(path) {
+        Ok(file) => file,
+        Err(err) if err.kind() == io::ErrorKind::NotFound => return Ok(()),
+        Err(err) => return Err(err),
+    };
+    let len = file.metadata()?.len();
+    if len == 0 {
+        return Ok(());
+    }
+    let mut last = [0u8; 1];
+    file.seek(SeekFrom::Start(len - 1))?;
+    file.read_exact(&mut last)?;
+    if last[0] == b'\n' {
+        return Ok(());
+    }
+
+    // Find the start of the unterminated last line.
+    const CHUNK: u64 = 64 * 1024;
+    let mut line_start = 0u64;
+    let mut pos = len;
+    while pos > 0 {
+        let start = pos.saturating_sub(CHUNK);
+        let mut chunk = vec![0u8; (pos - start) as usize];
+        file.seek(SeekFrom::Start(start))?;
+        file.read_exact(&mut chunk)?;
+        if let Some(idx) = chunk.iter().rposition(|byte| *byte == b'\n') {
+            line_start = start + idx as u64 + 1;
+            break;
+        }
+        pos = start;
+    }
+
+    let mut line = vec![0u8; (len - line_start) as usize];
+    file.seek(SeekFrom::Start(line_start))?;
+    file.read_exact(&mut line)?;
+    if serde_json::from_slice::<Event>(&line).is_ok() {
+        file.seek(SeekFrom::End(0))?;
+        file.write_all(b"\n")?;
+        file.flush()?;
+    } else {
+        file.set_len(line_start)?;
+    }
+    Ok(())
 }
 
 pub fn write_snapshot(
